@@ -5,7 +5,7 @@ import ast
 from typing import Dict, List, Optional, Set
 
 from .. import algebra as A
-from ..abseval import Cond, Const, Ctx, Evaluator, Inst, Scalar, State, S, SymObj, Undecided, cond_leaves, leaves
+from ..abseval import Cond, Const, Ctx, Evaluator, Inst, Leaf, Scalar, State, S, SymObj, Undecided, cond_leaves, leaves
 from ..cfg import CFG, reaching_definitions
 from ..check import Variant
 from ..effects import Effects
@@ -22,6 +22,8 @@ DECIDED = [
     'R2 the interpolation consumes the points sorted by Mach (sort dominates the call, both coordinate lists come '
     'from the sorted sequence); every table entry becomes CD / (interp(BC)/bc) with the same bc that becomes the '
     'model BC, i.e. standard CD * model BC / model CD = interp(BC)',
+    'R3 linear_interpolation returns yp[0] at or below the first abscissa, yp[-1] at or above the last, and inside a '
+    'bracket xp[m] <= x < xp[m+1] the straight line through the two bracketing points',
 ]
 NOT_DECIDED = ['that linear_interpolation returns the clamped piecewise-linear value for every query (search-loop '
                'correctness); the single-BC equivalence as numbers']
@@ -34,6 +36,7 @@ def run(prog: Program, rep, thorough: bool) -> None:
     A.reset()
     rep.rule('C14.R1', 'no effect on the table / points passed in', 3)
     rep.rule('C14.R2', 'sorted before interpolation; effective-BC identity', 4)
+    rep.rule('C14.R3', 'interpolation clamps at the ends and is the straight line inside a bracket', 2)
     dm = prog.module(C.M_DM)
     eng = Effects(prog)
     rep.extra['effect_fixpoint_rounds'] = eng.rounds
@@ -146,6 +149,7 @@ def run(prog: Program, rep, thorough: bool) -> None:
             rep.fail('C14.R2', dm.path, r.lineno, mb.qualname, 'model-bc',
                      f'the model is built with BC `{norm(a0) if a0 is not None else None}` but the ordinates were divided by '
                      f'`{bc_name}`: effective BC no longer equals the interpolated BC')
+    check_interpolation(prog, rep, ev, 'C14.R3')
     bcp_machc = prog.func(C.M_DM, 'BCPoint._machC') if prog.has_func(C.M_DM, 'BCPoint._machC') else None
     if bcp_machc is not None:
         try:
@@ -153,6 +157,110 @@ def run(prog: Program, rep, thorough: bool) -> None:
             rep.extra['bcpoint_mach1_reference_mps'] = A.numeric(v.rf) if isinstance(v, Scalar) else repr(v)
         except Undecided:
             pass
+
+
+def check_interpolation(prog: Program, rep, ev: Evaluator, rule: str) -> None:
+    """linear_interpolation: per query point, clamp below the first and above the last abscissa, and inside
+    use the straight line through the two bracketing points.  The search loop itself is not decided."""
+    dm = prog.module(C.M_DM)
+    li = prog.func(C.M_DM, 'linear_interpolation')
+    rep.saw(li)
+    outer = [s_ for s_ in li.node.body if isinstance(s_, ast.For)]
+    if len(outer) != 1 or not isinstance(outer[0].target, ast.Name):
+        raise AnalysisError('linear_interpolation: expected one loop over the query points')
+    loop = outer[0]
+    xname, xpn, ypn = li.positional[0], li.positional[1], li.positional[2]
+    if norm(loop.iter) != xname:
+        rep.fail(rule, dm.path, loop.lineno, li.qualname, 'queries', f'the loop runs over `{norm(loop.iter)}`, not over the query points')
+        return
+    res_names = [n.func.value.id for n in ast.walk(loop) if isinstance(n, ast.Call) and isinstance(n.func, ast.Attribute)
+                 and n.func.attr == 'append' and isinstance(n.func.value, ast.Name)]
+    if not res_names:
+        raise AnalysisError('linear_interpolation: no result list')
+    st = State()
+    out = ev.new_list(st, [])
+    st.env.update({loop.target.id: S('xi'), xpn: SymObj('xp'), ypn: SymObj('yp'), res_names[0]: out})
+    try:
+        tree = ev.exec_block(loop.body, st, Ctx(dm, li, None, 0))
+    except Undecided as exc:
+        raise AnalysisError(f'linear_interpolation body: {exc}') from exc
+    xi = A.sym('xi')
+    lo_clamp = hi_clamp = False
+    problems = []
+    for path, leaf in leaves(tree):
+        items = leaf.state.heap[out.oid]['$items']
+        below = above = None
+        for t, pol in path:
+            if t.kind == 'nonneg' and t.rf.equals(A.sym('xp[0]') - xi):
+                below = pol
+            elif t.kind == 'nonneg' and t.rf.equals(xi - A.sym('xp[-1]')):
+                above = pol
+            elif t.kind == 'pos' and t.rf.equals(xi - A.sym('xp[0]')):
+                below = not pol
+            elif t.kind == 'pos' and t.rf.equals(A.sym('xp[-1]') - xi):
+                above = not pol
+        if below:
+            lo_clamp = True
+            if not (len(items) == 1 and isinstance(items[0], SymObj) and items[0].path == 'yp[0]'):
+                problems.append(f'below the first point the value is {items!r}, expected yp[0]')
+        elif above:
+            hi_clamp = True
+            if not (len(items) == 1 and isinstance(items[0], SymObj) and items[0].path == 'yp[-1]'):
+                problems.append(f'above the last point the value is {items!r}, expected yp[-1]')
+    if not lo_clamp:
+        problems.append('no clamp at the first point (x <= xp[0])')
+    if not hi_clamp:
+        problems.append('no clamp at the last point (x >= xp[-1])')
+    # interpolant inside the search loop: the appended value under the bracketing guard
+    inner = [n for n in ast.walk(loop) if isinstance(n, ast.While)]
+    ok_line = False
+    for w in inner:
+        for iff in [n for n in ast.walk(w) if isinstance(n, ast.If)]:
+            apps = [c for c in ast.walk(iff) if isinstance(c, ast.Call) and isinstance(c.func, ast.Attribute) and c.func.attr == 'append']
+            if not apps:
+                continue
+            st2 = State()
+            out2 = ev.new_list(st2, [])
+            st2.env.update({loop.target.id: S('xi'), xpn: SymObj('xp'), ypn: SymObj('yp'), res_names[0]: out2, 'mid': S('m')})
+            for n in ast.walk(iff):
+                if isinstance(n, ast.Name) and n.id not in st2.env and isinstance(n.ctx, ast.Load) and n.id not in ('len',):
+                    st2.env[n.id] = S('m') if n.id in {x.id for x in ast.walk(iff.test) if isinstance(x, ast.Name)} - {loop.target.id, xpn, ypn} else S(f'${n.id}')
+            try:
+                gv = ev.eval(iff.test, st2, Ctx(dm, li, None, 0))
+                t2 = ev.exec_block([s_ for s_ in iff.body if not isinstance(s_, ast.Break)], st2, Ctx(dm, li, None, 0))
+            except Undecided:
+                continue
+            its = t2.state.heap[out2.oid]['$items'] if isinstance(t2, Leaf) else []
+            if len(its) != 1:
+                continue
+            try:
+                val = ev.scalar(its[0])
+            except Undecided:
+                continue
+            m = A.sym('m')
+            x0, x1 = A.sym(f'xp[{m!r}]'), A.sym(f'xp[{(m + 1)!r}]')
+            y0, y1 = A.sym(f'yp[{m!r}]'), A.sym(f'yp[{(m + 1)!r}]')
+            line = y0 + (y1 - y0) / (x1 - x0) * (xi - x0)
+            # the guard must bracket: xp[m] <= xi < xp[m+1]
+            tests = []
+            for _pp, lf in cond_leaves(gv):
+                if isinstance(lf, Const) and lf.value is True:
+                    tests = _pp
+            br_lo = any(t.kind == 'nonneg' and t.rf.equals(xi - x0) and pol for t, pol in tests)
+            br_hi = any((t.kind == 'pos' and t.rf.equals(x1 - xi) and pol) or (t.kind == 'nonneg' and t.rf.equals(x1 - xi) and pol)
+                        for t, pol in tests)
+            if val.equals(line) and br_lo and br_hi:
+                ok_line = True
+            elif br_lo or br_hi:
+                problems.append(f'inside the bracket [xp[m], xp[m+1]) the value is {val!r}, not the straight line through the '
+                                f'two bracketing points')
+    if not ok_line and not any('straight line' in p_ for p_ in problems):
+        problems.append('no bracketed straight-line interpolant found in the search loop')
+    if problems:
+        rep.fail(rule, dm.path, li.node.lineno, li.qualname, 'interpolant', '; '.join(sorted(set(problems))[:3]))
+    else:
+        rep.ok(rule, li.where, 'x <= xp[0] -> yp[0]; x >= xp[-1] -> yp[-1]')
+        rep.ok(rule, li.where, 'xp[m] <= x < xp[m+1] -> yp[m] + (yp[m+1]-yp[m])/(xp[m+1]-xp[m]) (x - xp[m])')
 
 
 def _key_is_mach(call: ast.Call) -> bool:
@@ -229,5 +337,8 @@ VARIANTS = [
     Variant('sorted-descending', 'break', [(DMF, 'sorted(bc_points, key=lambda p: p.Mach)', 'sorted(bc_points, key=lambda p: p.Mach, reverse=True)')], 'C14.R2'),
     Variant('model-bc-one', 'break', [(DMF, 'return DragModel(bc, drag_table, weight, diameter, length)', 'return DragModel(1.0, drag_table, weight, diameter, length)')], 'C14.R2'),
     Variant('dragmodel-sorts-callers-table', 'break', [(DMF, '        self.drag_table = make_data_points(drag_table)\n', '        drag_table.sort(key=lambda p: p["Mach"] if isinstance(p, dict) else p.Mach)\n        self.drag_table = make_data_points(drag_table)\n')], 'C14.R1'),
+    Variant('interp-slope-from-wrong-pair', 'break', [(DMF, 'slope = (yp[mid + 1] - yp[mid]) / (xp[mid + 1] - xp[mid])', 'slope = (yp[mid + 1] - yp[mid]) / (xp[mid + 1] - xp[mid - 1])')], 'C14.R3', 'wrong only between points'),
+    Variant('interp-upper-clamp-to-first', 'break', [(DMF, '        elif xi >= xp[-1]:\n            y.append(yp[-1])', '        elif xi >= xp[-1]:\n            y.append(yp[0])')], 'C14.R3', 'wrong only above the fastest BC point'),
+    Variant('interp-no-lower-clamp', 'break', [(DMF, '        if xi <= xp[0]:\n            y.append(yp[0])\n        elif xi >= xp[-1]:', '        if xi >= xp[-1]:')], 'C14.R3'),
     Variant('twin-sorted-new-local', 'twin', [(DMF, '    bc_points = sorted(bc_points, key=lambda p: p.Mach)  # Make sure bc_points are sorted for linear interpolation\n    bc_interp = linear_interpolation([x.Mach for x in drag_table],\n                                     [x.Mach for x in bc_points],\n                                     [x.BC / bc for x in bc_points])', '    pts = sorted(bc_points, key=lambda p: p.Mach)\n    bc_interp = linear_interpolation([x.Mach for x in drag_table],\n                                     [x.Mach for x in pts],\n                                     [x.BC / bc for x in pts])')], None),
 ]
